@@ -165,6 +165,33 @@ CHECKS.update({
         design="Part II C17"),
 })
 
+CHECKS.update({
+    "C03": dict(
+        text=("Coq theorems over the per-operation system-call footprint (Ops.v): every key a copy/link/special operation can "
+              "change, in ANY prefix of its execution (wherever it is killed or fails), is its own mapped target or that "
+              "target's numbered backup, never a source; a target that denotes the source itself (same inode, any spelling, "
+              "symlink, hard link) is refused before any mutating action. Correspondence: alias invocations of every kind, "
+              "SIGKILL before/after every mutating call, one injected errno at every call; sources and bystanders compared "
+              "before/after; every mutating call of the trace must hit a mapped destination path; the per-file mutating action "
+              "sequence equals the model's."),
+        note=("after `fix: refuse to copy a file onto itself through an alias` and the inode check in validation. Atomicity of "
+              "each system call under SIGKILL is the kernel's; atime is not compared."),
+        technique="Coq proof of footprint ownership/prefix-closure + ptrace kill/fault enumeration with snapshots",
+        design="Part II C03"),
+    "C04": dict(
+        text=("Coq theorems over the error-propagation model of one operation: a failing step outside the finalisation class "
+              "always yields an error exit; exit-ok after a fault implies the failing action was a tolerated one (xattr, "
+              "ownership) or lies in the known class; a tolerated failure does not skip the permission/timestamp/fsync steps; the "
+              "known class is proved real by a witness. Fault enumeration on the real binary: one errno from {EIO ENOSPC EACCES "
+              "EMFILE EROFS EEXIST EPERM} at every system call of walker, dispatcher and workers, both drivers (pairs in "
+              "thorough); exit 0 must imply a complete and correct destination incl. mode/mtime/backups; exit class vs the model."),
+        note=("two recorded findings print KNOWN-FINDING lines (finalisation in Drop; exists()/is_dir() probes); a third found "
+              "here (swallowed readdir errors in the backup scan) is repaired. Proof level is thin by nature here: the "
+              "assurance is the enumeration."),
+        technique="fault enumeration via ptrace + Coq proof of the propagation model it is compared with",
+        design="Part II C04"),
+})
+
 NOT_YET = {}
 
 def main():
